@@ -425,17 +425,3 @@ Lemma site2_nonvacuous :
   typing_imports_render (stdlib_of [m_typing]) demo_classify empty_collector [w_List; w_Pet] <> [].
 Proof. repeat split; vm_compute; discriminate. Qed.
 
-(* ================================================================================================
-   dispatch over the translator's list of order-relevant sites *)
-Definition site_obligation (m : str) : Prop :=
-  if str_eqb m m_typing_imports_render then
-    forall is_stdlib classify c0 l1 l2, wf_collector c0 = true -> Permutation l1 l2 ->
-      typing_imports_render is_stdlib classify c0 l1 = typing_imports_render is_stdlib classify c0 l2
-  else False.   (* a site without a transcription: undischargeable *)
-
-Theorem sites_full : forall m, In m order_relevant_models -> site_obligation m.
-Proof.
-  intros m Hin. unfold order_relevant_models in Hin. simpl in Hin.
-  destruct Hin as [<-|[]].
-  unfold site_obligation. vm_compute str_eqb. exact site2_invariant.
-Qed.
